@@ -16,7 +16,6 @@ NOT_APPLICABLE = {
     'C01': 'print/re-parse round trip: ' + NO_PARSER + '; the token-level half (literals, identifiers, parameters) is decided under C18',
     #'C02-old': 'computed migrations: ' + NO_PARSER,
     'C03': 'DESCRIBE output rebuilds the schema: ' + NO_PARSER,
-    'C05': 'backend tables track the schema: edb/pgsql/delta.py adapts deltas of std-based object types; ' + NO_PARSER,
     'C07': 'access policies on every read path: needs EdgeQL->IR->SQL compilation; ' + NO_PARSER,
     #'C10-old': 'step-by-step vs direct migration: ' + NO_PARSER,
     #'C11-old': 'SDL order independence: sdl_to_ddl needs parsed SDL and std name resolution (' + NO_PARSER + '); its ordering kernel is decided under C20',
@@ -113,12 +112,29 @@ check('C16', 'model_checking',
       'DESIGN.md section 4, C15/C16')
 
 check('C20', 'other',
-      'bounded symbolic execution of the real topological sort (CrossHair + z3) over a symbolic labelling of all ordered pairs of 2-3 keys',
-      'For every graph inside the bound (all labellings of all ordered pairs, including self-loops and a reference to a missing item) '
-      'the real sort_ex/sort/normalize satisfy: permutation, hard edges respected, CycleError iff the hard edges are cyclic, soft edges '
-      'honoured when hard+soft is acyclic, unresolved references raise iff not allowed, deterministic. Finite-domain input: the '
-      'per-path engine performs an exhaustive case split; N >= 4 is outside (the merged bit-vector encoding of DESIGN.md was not built).',
-      'Trusted: the 8-line reachability oracle. Iteration order of keys: ascending only.', 'DESIGN.md section 4, C20')
+      'merged predicated QF_BV encoding of the current source of topological.sort_ex (vlib.pysym: AST -> one formula, z3 + cvc5), plus '
+      'per-path symbolic execution (CrossHair + z3) at N <= 3',
+      'E2: the AST of sort_ex is evaluated symbolically once; one Boolean per (edge kind, ordered pair) makes ALL graphs of a size one '
+      'formula and each property one solver query: N = 3 with deps / weak_deps / merge / loop_control and a missing key (2^48 graphs), '
+      'N = 4 with deps + weak_deps (2^32; thorough: + loop_control or merge, 2^48). Properties: one outcome; permutation; hard edges '
+      'respected; hard cycle => CycleError; CycleError => real cycle; soft edges honoured when everything is acyclic; removing soft '
+      'edges never changes the outcome; missing item raises iff not allowed. Unwinding assertion, vacuity witnesses, per-run '
+      'translator validation against CPython, native replay of every model, cvc5 as second solver. E1 repeats the check per path at '
+      'N = 2..3 and adds determinism, sort() and normalize().',
+      'Trusted: reachability formulas; vlib.pysym is validated against CPython on every run and fails closed on unsupported syntax. '
+      'Iteration order of keys: ascending only. N >= 5 outside.', 'DESIGN.md section 4, C20', engine='E2 PySym merged encoding + E1 CrossHair')
+
+check('C05', 'model_checking',
+      'bounded model checking of DDL histories through the real backend delta (pgsql.delta adapt / apply / generate): commands are '
+      'symbolic choices (CrossHair + z3), the dbops stream is interpreted on a ghost catalog',
+      'Every history inside the bound - 2 (quick) / 3 (thorough, one recipe) commands chosen from a menu of ~100 DDL commands over 3 '
+      'object types on top of 8 pre-built schemas - runs through ddl.delta_from_ddl, pgsql.delta.CommandMeta.adapt, apply and generate '
+      'as the server does; after every accepted command no emitted table operation is one PostgreSQL would refuse and the resulting '
+      'tables and columns are exactly what types.has_table / get_pointer_storage_info / get_backend_name tell the query compiler to '
+      'address: nothing missing, nothing orphaned, column types equal.',
+      'Trusted: the 150-line ghost-catalog interpreter of dbops. std stand-in instead of the standard library (no id / __type__ columns); '
+      'NOT NULL, defaults, constraints, triggers, views and data-migration statements are generated but not interpreted; expressions '
+      '(computed <-> stored) are outside.', 'DESIGN.md section 4, C05')
 
 check('C04', 'model_checking',
       'bounded model checking of DDL histories on the real schema delta machinery: commands are symbolic choices (CrossHair + z3), executed natively once chosen',
@@ -193,6 +209,8 @@ def main():
         'engines': [
             {'name': 'E1 CrossHair', 'path': '/verif/vlib/xhair.py', 'serves_properties': sorted(CHECKS),
              'kind_free_text': 'symbolic execution of the real Python functions with z3, one process per obligation, native replay of every counterexample'},
+            {'name': 'E2 PySym', 'path': '/verif/vlib/pysym.py', 'serves_properties': ['C20'],
+             'kind_free_text': 'merged predicated symbolic evaluation of a function AST (read from the tree under test) into QF_BV; z3 tactic pipeline, cvc5 binary as second solver; validated against CPython per run'},
         ],
         'checks': checks,
         'not_applicable': na,
